@@ -1220,7 +1220,13 @@ class VectorImpl : public VectorDestr<T, Alloc, SizeType, WithInlineElements, Gr
     assert(position >= this->cbegin() && position <= cend());
     const_reference newV = this->adjustCapacity(static_cast<uintmax_t>(this->size()) + 1U, v, &position);
     iterator pos = const_cast<iterator>(position);
-    insert_n(pos, this->size() - (pos - this->begin()), newV);
+    SizeType nElemsToShift = static_cast<SizeType>(this->size() - (pos - this->begin()));
+    // if 'v' is one of the elements about to be shifted, it will be found one slot further once they are
+    const T *pV = std::addressof(newV);
+    if (pos <= pV && pV < pos + nElemsToShift) {
+      ++pV;
+    }
+    insert_n(pos, nElemsToShift, *pV);
     this->incrSize();
     return pos;
   }
@@ -1243,8 +1249,13 @@ class VectorImpl : public VectorDestr<T, Alloc, SizeType, WithInlineElements, Gr
       if (nElemsToShift == 0) {
         std::uninitialized_fill_n(pos, count, newV);
       } else {
+        // if 'v' is one of the elements about to be shifted, it will be found 'count' slots further once they are
+        const T *pV = std::addressof(newV);
+        if (pos <= pV && pV < pos + nElemsToShift) {
+          pV += count;
+        }
         shift_right(pos, nElemsToShift, count);
-        fill_after_shift(pos, nElemsToShift, count, newV);
+        fill_after_shift(pos, nElemsToShift, count, *pV);
       }
       this->setSize(this->size() + count);
     } else {
